@@ -375,3 +375,27 @@ class WrapMon(Monitor):
         self.obs["max_learners"] = max(self.obs.get("max_learners", 0), len(self.rec.learners))
         if self.dropped:
             self.obs["rewards_dropped_after_termination"] += self.dropped
+
+
+def stub_learner(kind):
+    """O(1) stand-in for a base learner (same __name__): proposes a fresh in-box point object per pull.  Used for the
+    schedule enumeration of C09/C10, where only the routing of pulls and rewards matters."""
+
+    class _S:
+        def __init__(self, nu=None, rho=None, rounds=None, domain=None, partition=None):
+            self.nu, self.rho, self.k, self.dom = nu, rho, 0, domain
+
+        def pull(self, time):
+            self.k += 1
+            u = (self.k * 0.6180339887498949) % 1.0
+            return [lo + (hi - lo) * u for lo, hi in self.dom]
+
+        def receive_reward(self, time, reward):
+            pass
+
+        def get_last_point(self):
+            return self.pull(0)
+
+    _S.__name__ = kind
+    _S.__qualname__ = kind
+    return _S
